@@ -39,18 +39,29 @@ def _upper_of_range(A, f, call):
 def _valid_upper(A, f):
     """exclusive upper bound accepted by hours_valid / minutes_valid:
     from the final comparison `0 <= x < N` (normalised)."""
-    for n in walk_own(f.node):
-        if isinstance(n, ast.Return) and isinstance(n.value, ast.Compare):
-            c = n.value
-            ops, comps = c.ops, [c.left] + c.comparators
-            # a <= x < N  /  x < N and x >= a ...
-            for i, op in enumerate(ops):
-                k = A.try_fold(comps[i + 1], f)
-                if isinstance(op, ast.Lt) and isinstance(k, int):
-                    return k
-                if isinstance(op, ast.LtE) and isinstance(k, int) and i > 0:
-                    return k + 1
-    return None
+    uppers = []
+    for r in walk_own(f.node):
+        if not (isinstance(r, ast.Return) and r.value is not None):
+            continue
+        for c in ast.walk(r.value):
+            if not isinstance(c, ast.Compare):
+                continue
+            comps = [c.left] + c.comparators
+            # a <= x < N  /  0 <= x and x < N  /  N > x ...: every adjacent
+            # pair <variable> op <constant> (or the mirrored form)
+            for i, op in enumerate(c.ops):
+                lk, rk = A.try_fold(comps[i], f), A.try_fold(comps[i + 1], f)
+                if isinstance(rk, int) and not isinstance(lk, int):
+                    if isinstance(op, ast.Lt):
+                        uppers.append(rk)
+                    elif isinstance(op, ast.LtE):
+                        uppers.append(rk + 1)
+                elif isinstance(lk, int) and not isinstance(rk, int):
+                    if isinstance(op, ast.Gt):
+                        uppers.append(lk)
+                    elif isinstance(op, ast.GtE):
+                        uppers.append(lk + 1)
+    return min(uppers) if uppers else None
 
 
 def _digit_strings(A, f):
